@@ -144,27 +144,35 @@ def r3_string_images(a, tier):
         'constant whose text happens to look like the marker is reloaded as another object',
         floor=1,
     )
+    from ..minieval import Obj, Unsupported
+    from ..modelinterp import Hook, ModelInterp
     fj = a.p.func('tatsu.util.fromjson.fromjson.dfs')
-    aj = a.p.func('tatsu.util.asjson.asjson.dfs')
-
-    def str_case(fn):
-        for n in ast.walk(fn.node):
-            if isinstance(n, ast.match_case) and isinstance(n.pattern, ast.MatchClass) and dotted(n.pattern.cls) == 'str':
-                return n
-        return None
-
-    dc, ec = str_case(fj), str_case(aj)
-    if dc is None or ec is None:
-        raise AnalysisError('asjson/fromjson: `case str()` not found')
-    sniff = [n for n in ast.walk(dc) if isinstance(n, ast.If) and any(isinstance(x, ast.Return) and x.value is not None and norm(x.value) != 'node'
-                                                                       for s in n.body for x in ast.walk(s))]
-    enc_plain = any(isinstance(x, ast.Return) and x.value is not None and norm(x.value) == 'node' for s in ec.body for x in ast.walk(s))
-    rep.add({'decoder_sniffs': [norm(n.test) for n in sniff], 'encoder_emits_str_unchanged': enc_plain})
-    for n in sniff:
-        if enc_plain:
-            rep.fail(fj.qualname, f'sniff:{norm(n.test)}', f'fromjson reinterprets a plain JSON string when `{norm(n.test)}` while asjson emits '
-                     f'every str unchanged: a token/constant/pattern whose text starts with that marker is reloaded as a Style object '
-                     f'(its text altered by escape parsing) - the reloaded grammar differs', f'{fj.module.relpath}:{n.lineno}')
+    fjo = a.p.func('tatsu.util.fromjson.fromjson')
+    ajo = a.p.func('tatsu.util.asjson.asjson')
+    # candidate markers: the string constants the decoder compares text against
+    markers: list[str] = []
+    for n in ast.walk(fj.node):
+        if isinstance(n, ast.Call) and isinstance(n.func, ast.Attribute) and n.func.attr in ('startswith', 'endswith', 'find', 'index') \
+                or isinstance(n, ast.Compare):
+            for c in ast.walk(n):
+                if isinstance(c, ast.Constant) and isinstance(c.value, str) and c.value and c.value not in markers \
+                        and c.value != '__class__':
+                    markers.append(c.value)
+    for text, what in [('plain', 'plain text')] + [(m + 'x', f'text starting with {m!r}') for m in markers]:
+        style = Obj(kind='Style', raw=text)
+        try:
+            enc = ModelInterp(a).call_fn(ajo, [text])
+            dec = ModelInterp(a, {'Style': Hook(lambda *x: style, from_raw=Hook(lambda *x: style))}).call_fn(fjo, [enc])
+        except Unsupported as e:
+            raise AnalysisError(f'cannot interpret asjson/fromjson on a string: {e}') from e
+        ok = dec == text and isinstance(dec, str)
+        rep.add({'string': text, 'asjson': enc if isinstance(enc, str) else type(enc).__name__,
+                 'fromjson_of_that': dec if isinstance(dec, str) else 'a Style object', 'round_trips': ok})
+        if not ok:
+            marker = text[:-1] if text != 'plain' else text
+            rep.fail(fj.qualname, f'sniff:{marker}', f'a str value that is {what} ({text!r}) is emitted by asjson as {enc!r} and reloaded by '
+                     f'fromjson as {"a Style object" if dec is style else repr(dec)}: a token/constant/pattern with that text is not '
+                     f'reloaded as itself - the reloaded grammar differs', fj.loc)
     return rep
 
 
